@@ -19,7 +19,7 @@ TIERS = {
     "quick": dict(families=[dict(nodes=3, max_edges=4), dict(nodes=4, max_edges=3)], instances=4,
                   graphs=60, gnodes=16, rinst=3),
     "thorough": dict(families=[dict(nodes=3, max_edges=5), dict(nodes=4, max_edges=4)], instances=8,
-                     graphs=500, gnodes=30, rinst=4),
+                     graphs=70, gnodes=30, rinst=4),
 }
 
 
